@@ -49,7 +49,8 @@ int main(void)
   cx_mode = 0;
   uint32_t r = vf_extract_element(from, sz, tag, val); cx_ret = r;
   VF_ASSERT(r <= sz, "C03: extract_element consumes no more than the input");
-  VF_ASSERT((r != 0) == (has_eq && has_soh), "C03: a token is recognised iff digits '=' bytes SOH");
+  /* (an extractor that knows the capacity may refuse a token that does not fit; one that does not know it overflows, caught by the bounds checks) */
+  VF_ASSERT((r != 0) == (has_eq && has_soh && nd < CAPT && vlen < CAPV), "C03: a token is recognised iff digits '=' bytes SOH (and it fits the buffers)");
   if (r) {
     VF_ASSERT(r == ve + 1, "C03: the token ends at the first SOH after '='");
     int ok = 1;
@@ -65,8 +66,12 @@ int main(void)
   uint32_t r = 0;
   for (uint32_t k = 0; k < CAPV; k++) if (k == vs) r = vf_extract_element_fw(from, sz, k, tag, val);   /* constant copy lengths */
   cx_ret = r;
-  int fits = has_eq && nd + 1 + vs <= sz;
-  VF_ASSERT((r != 0) == fits, "C03: fixed-width token recognised iff digits '=' and val_sz bytes are available");
+#ifdef KF_FW_NOSEP
+  int fits = has_eq && nd < CAPT && nd + 1 + vs <= sz;                 /* known finding (C06): the separator after the value is charged for but not examined */
+#else
+  int fits = has_eq && nd < CAPT && nd + 1 + vs + 1 <= sz && cx_in[nd + 1 + vs] == SOH;
+#endif
+  VF_ASSERT((r != 0) == fits, "C03: fixed-width token recognised iff digits '=', val_sz bytes and the field separator are available");
   if (r) {
     int ok = 1;
     for (uint32_t i = 0; i < CAPT; i++) { if (i < nd && tag[i] != cx_in[i]) ok = 0; if (i == nd && tag[i] != 0) ok = 0; }
